@@ -24,7 +24,7 @@ ASSUMPTIONS = ['clusters are whatever the supplied clustering callable returns (
                'a cluster whose score vector contains an undefined correlation (constant run of >= 3 points) is skipped',
                'score ties (relative 1e-9) may be resolved either way', 'knees are interior indices (1..n-2), as stated']
 BOUNDS = {'quick': {'curves': 'G12Y013 n=5 complete, Y013 n=6 and A1 n=6 complete', 'knee sets': 'all interior subsets with >=2 members', 'clustering': '4 linkages x t in {0.2,0.5,0.75,1.0} + all 2^(k-1) contiguous labellings', 'deep': 'Y013 n=8, knee sets with >=5 knees, every labelling into 2-3 clusters, hull + linear modes'},
-          'thorough': {'curves': 'A12 n=5, A1 n=6, Y013 n=7', 'knee sets': 'all', 'clustering': 'same', 'deep': 'Y013 n=8,9 and G12Y013 n=6'}}
+          'thorough': {'curves': 'A12 n=5, A1 n=6, Y013 n=7', 'knee sets': 'all', 'clustering': 'same', 'deep': 'Y013 n=8,9 and G12Y013 n=7'}}
 TECHNIQUE = 'bounded-exhaustive enumeration of curves x all knee subsets x clusterings (real linkages and every scripted contiguous labelling) on the real filters; independent exact score recomputation'
 LEVEL_TEXT = ('Model checking: all interior knee subsets of every small curve, every linkage/threshold and - through the callable seam - every contiguous labelling; exactly one '
               'best-scoring member per cluster (left/linear/right), hull-mode representation rule against a brute-force hull, and the corner-triangle rule.')
@@ -41,7 +41,7 @@ def units(tier, seed):
     plan.append((b.name, 5, 8))
     u = [(prof, n, k, K, 'all') for prof, n, K in plan for k in range(K)]
     # deep units: many knees in several clusters (cursor / bookkeeping bugs across clusters need >= 5 knees)
-    deep = [('Y013', 8, 96)] if tier == 'quick' else [('Y013', 8, 96), ('Y013', 9, 256), ('G12Y013', 6, 64)]
+    deep = [('Y013', 8, 96)] if tier == 'quick' else [('Y013', 8, 96), ('Y013', 9, 256), ('G12Y013', 7, 256)]
     u += [(prof, n, k, K, 'deep') for prof, n, K in deep for k in range(K)]
     return u
 
@@ -208,7 +208,7 @@ def run_unit(unit, res):
                         res.count('nontrivial')
                     if d[0] == 'script':
                         res.count('scripted_labellings')
-        if first:
+        if first and ksets:
             first = False
             res.sample({'profile': prof, 'x': xs, 'y': ys, 'knee_sets': len(ksets), 'lower_hull': H, 'example': {'knees': ksets[-1], 'scripted_labellings': 2 ** (len(ksets[-1]) - 1)}})
     res.notes['n_max_' + prof.split('+')[0]] = n
